@@ -254,6 +254,7 @@ GRID = {
     'S': ('"a"', '""'),
     'A': ((), (0,), (1, 2), (1, 1)),
     'AB': ((), (True,), (True, False)),
+    'AS': ((), ('"a"',)),
     'M': ({'f': 0, 'x': 1, 'p': True}, {'f': 2, 'x': -1, 'p': False}),
 }
 
